@@ -114,8 +114,11 @@ pub fn c10(out: &mut Out, ex: &mut Exec, seed: u64, thorough: bool) {
     h.ld(0, "CNT"); h.add_i(0, 0, 1); h.st(0, "CNT"); h.and_i(1, 0, 7);
     h.ldr(1, 6, 0); h.add_i(6, 6, 1); h.ldr(0, 6, 0); h.add_i(6, 6, 1); h.rti();
     h.label("H_KB"); h.add_i(6, 6, -1); h.str(0, 6, 0); h.ldi(0, "KBDRP"); h.st(0, "LASTKEY"); h.ldr(0, 6, 0); h.add_i(6, 6, 1); h.rti();
+    // a handler that itself executes a TRAP (user-defined vector x30 -> a routine that is just RTI): traps taken at a raised
+    // priority must keep that priority
+    h.label("H_TRP"); h.trap(0x30); h.rti();
     h.label("CNT"); h.w(0); h.label("LASTKEY"); h.w(0); h.label("KBDRP"); h.w(0xFE02);
-    let (h_rti, h_cnt, h_kb) = (h.labels["H_RTI"], h.labels["H_CNT"], h.labels["H_KB"]);
+    let (h_rti, h_cnt, h_kb, h_trp) = (h.labels["H_RTI"], h.labels["H_CNT"], h.labels["H_KB"], h.labels["H_TRP"]);
     for id in 0..n {
         let kbint = rng.chance(1, 4);
         let mut prng = rng.fork();
@@ -127,7 +130,8 @@ pub fn c10(out: &mut Out, ex: &mut Exec, seed: u64, thorough: bool) {
             // every fifth case runs with ignore_privilege: entry and RTI must still switch stacks by the PSR alone
             if id % 5 == 4 { v[1] = format!("sim new 0 0 {} 1 0000", (id % 2 == 0) as u8); }
             v.push(h.rawmem());
-            v.push(format!("sim rawmem 0181 {:04x}/ffff {:04x}/ffff {:04x}/ffff", h_cnt, h_rti, h_cnt));
+            v.push(format!("sim rawmem 0181 {:04x}/ffff {:04x}/ffff {:04x}/ffff", h_cnt, h_rti, h_trp));
+            v.push(format!("sim rawmem 0030 {:04x}/ffff", h_rti));
             v.push(format!("sim rawmem 0180 {:04x}/ffff", h_kb));
             if with_int {
                 let ndev = 1 + rng.below(2);
@@ -203,6 +207,8 @@ pub fn c11(out: &mut Out, ex: &mut Exec, seed: u64, thorough: bool, paired: bool
         let mut finals = vec![];
         for real in if paired { vec![false, true] } else { vec![rng.chance(1, 3)] } {
             let mut v = base_setup(&format!("{id}{}", if real { "r" } else { "v" }), real, false, &prog, &kb);
+            // every fifth case runs with ignore_privilege: the routines' entry and RTI must still switch stacks by the PSR alone
+            if id % 5 == 4 { v[1] = format!("sim new 0 {} 0 1 0000", real as u8); }
             for (r, d) in regs.iter().enumerate() { v.push(format!("sim rawreg {} {:04x} ffff", r, d)); }
             // step to the trap, remember the state, run the trap to its return, then to the end
             let pre_steps = if which == 0x20 || which == 0x23 || which == 0x25 { 1 } else { 2 };
